@@ -15,6 +15,7 @@ def rtHyps (envS rtS valS : Sexp) : Sexp :=
        (if noProtoNamedProps env rt && noProtoNamedKeys x then [] else [Sexp.atom "NoProtoNamedKeys"]) ++
        (if intersectionsOfObjects env rt then [] else [Sexp.atom "IntersectionsOfObjects"]) ++
        (if noAccessorNamedProps env rt then [] else [Sexp.atom "NoAccessorNamedProps"]) ++
+       (if noLaxObjectBesideBuiltin env rt x then [] else [Sexp.atom "NoLaxObjectBesideBuiltin"]) ++
        (if noEmptyIntersection env rt then [] else [Sexp.atom "NoEmptyIntersection"])))
   | _, _, _ => .list [.atom "hyp-failed"]
 
